@@ -24,7 +24,7 @@ func init() {
 		Text: "in every write handler each effective mutation of a persistent location is followed on all normal paths to return by a store to the returned commandDetails.updated that is not the constant false (writeAOF silently drops commands whose details say not updated)",
 		Run:  ruleUpdatedFlag})
 	register(&Rule{ID: "R3.replay-path", Props: []string{"C03"}, Floor: 2,
-		Text: "loadAOF reaches command by a static call (start-up re-executes the log through the same handlers as run time) and ignores only the two reviewed non-fatal errors",
+		Text: "loadAOF reaches command by a static call (start-up re-executes the log through the same handlers as run time) and ignores only the reviewed non-fatal errors (errKeyNotFound, errIDNotFound, errHookChannelSameName: each can only mean that a later command in the log supersedes this one)",
 		Run:  ruleReplayPath})
 }
 
@@ -831,7 +831,12 @@ func ruleReplayPath(c *Ctx) {
 		c.und("commandErrIsFatal", 0, "commandErrIsFatal not found")
 		return
 	}
-	allowed := map[string]bool{"errKeyNotFound": true, "errIDNotFound": true}
+	// the reviewed set: each entry is an error that can only mean "a later command in the log supersedes this
+	// one" when it occurs while a log is loaded —
+	//   errKeyNotFound, errIDNotFound    the target was deleted later (the rewrite's snapshot no longer has it)
+	//   errHookChannelSameName           the name was deleted and reused as the other kind later (fix f2ba58a;
+	//                                    the rewrite writes the hooks last, the captured DEL and SET follow)
+	allowed := map[string]bool{"errKeyNotFound": true, "errIDNotFound": true, "errHookChannelSameName": true}
 	var vars []string
 	ast.Inspect(fatal.Decl.Body, func(x ast.Node) bool {
 		if id, ok := x.(*ast.Ident); ok {
@@ -847,7 +852,7 @@ func ruleReplayPath(c *Ctx) {
 			okv = false
 		}
 	}
-	c.check(okv, "commandErrIsFatal", fatal.Decl.Pos(), fmt.Sprintf("tolerated replay errors %v ⊆ {errKeyNotFound errIDNotFound}", vars), fmt.Sprintf("replay tolerates errors %v beyond the two reviewed ones", vars))
+	c.check(okv, "commandErrIsFatal", fatal.Decl.Pos(), fmt.Sprintf("tolerated replay errors %v ⊆ {errKeyNotFound errIDNotFound errHookChannelSameName}", vars), fmt.Sprintf("replay tolerates errors %v beyond the reviewed ones (an error skipped at load time silently drops a logged command)", vars))
 }
 
 // isFreshCollectionInsert: n is s.cols.Set(k, v) where every definition of v
